@@ -149,9 +149,83 @@ func safely(j job, f func(j job) outcome) (o outcome) {
 			o.sets = append(o.sets, [2]string{"panic_sites_observed", j.kind + ":" + site})
 			o.sampleTag = "panic-" + site
 			o.sample = map[string]interface{}{"note": "panic observed while " + j.kind + " (not a C13 verdict; see notes)", "site": site, "statement": j.text, "panic": fmt.Sprint(p)}
+			if PanicObserver != nil {
+				PanicObserver(j.kind, site, fmt.Sprint(p), j.text)
+			}
 		}
 	}()
 	return f(j)
+}
+
+// PanicObserver, when set, is told of every panic that safely() recovers: kind of the job (subst = MySQL rewriters,
+// pgsubst = PostgreSQL rewriters, edit, roundtrip, splice), innermost Acra function on the stack, panic text, statement.
+// C13 itself does not judge such panics; the C14 monitor (props/c14/rewriters.go) sets the observer and does.
+// It is called from the worker goroutines, possibly concurrently.
+var PanicObserver func(kind, site, panicText, statement string)
+
+// RunRewriters drives ONLY the real query rewriters (HashQuery + QueryDataEncryptor of each dialect, registered as in
+// phaseSubstMySQL / phaseSubstPG, same generator streams, so the first nMySQL / nPG statements are the ones a C13 run
+// of the same seed rewrites) plus every harvested statement, and applies the C13 oracles to r. Used by C14 with a
+// throw-away run: there only the panics (PanicObserver) and the execution counters matter.
+func RunRewriters(r *ev.Run, nMySQL, nPG int) error {
+	harvested, err := sqlgen.Harvest(sqlgen.RepoPath())
+	if err != nil {
+		return err
+	}
+	defer setDialect(sqlgen.MySQL)
+	for _, d := range []sqlgen.Dialect{sqlgen.MySQL, sqlgen.PostgreSQL} {
+		setDialect(d)
+		m := &mon{r: r, d: d}
+		kind, placeholder, f, total := "subst", "?", m.substMySQL, nMySQL
+		var g, gt *sqlgen.Gen
+		if d == sqlgen.MySQL {
+			if mysqlSchema, err = loadSchema(true); err != nil {
+				return err
+			}
+			g = sqlgen.New(r.Seed, "c13-subst", sqlgen.MySQL, sqlgen.Options{Schema: schemaTables, Kinds: []string{"insert", "insert", "replace", "update", "update", "select", "select", "select", "union", "delete"}})
+			gt = sqlgen.New(r.Seed, "c13-subst-tpl", sqlgen.MySQL, sqlgen.Options{Schema: schemaTables, Placeholders: "none"})
+		} else {
+			if pgSchema, err = loadSchema(false); err != nil {
+				return err
+			}
+			kind, placeholder, f, total = "pgsubst", "$", m.substPG, nPG
+			g = sqlgen.New(r.Seed, "c13-pgsubst", sqlgen.PostgreSQL, sqlgen.Options{Strict: true, Schema: schemaTables, Kinds: []string{"insert", "insert", "update", "update", "select", "select", "select", "delete"}})
+			gt = sqlgen.New(r.Seed, "c13-pgsubst-tpl", sqlgen.PostgreSQL, sqlgen.Options{Strict: true, Schema: schemaTables, Placeholders: "none"})
+		}
+		var jobs []job
+		for i := range harvested {
+			h := &harvested[i]
+			if h.Explicit && h.Dialect != d || h.ANSI {
+				continue
+			}
+			jobs = append(jobs, job{kind: kind, origin: "harvest", text: h.Text, h: h})
+		}
+		m.run(jobs, f)
+		const chunk = 20000
+		for done := 0; done < total; {
+			n := min(chunk, total-done)
+			jobs = jobs[:0]
+			for i := 0; i < n; i++ {
+				if (done+i)%5 == 4 {
+					ph := ""
+					if (done+i)%15 == 14 {
+						ph = placeholder
+					}
+					tpl := searchTemplates[((done+i)/5)%len(searchTemplates)]
+					if d == sqlgen.PostgreSQL {
+						tpl = strings.ReplaceAll(tpl, "<=>", "=")
+					}
+					jobs = append(jobs, job{kind: kind, origin: "template", text: fillTemplate(gt, tpl, ph)})
+					continue
+				}
+				st := g.Next()
+				jobs = append(jobs, job{kind: kind, origin: "gen", text: st.Text, st: st})
+			}
+			m.run(jobs, f)
+			done += n
+		}
+	}
+	return nil
 }
 
 // panicSite names the innermost Acra function on the stack.
